@@ -26,10 +26,6 @@ from harness.lib import oracle as O, impl as I, gen_reference as G
 PROPERTY = 'C11'
 ROOT = os.path.dirname(os.path.dirname(os.path.dirname(os.path.abspath(__file__))))
 FINDING_D9 = 'C11-D9'
-FINDING_BOOKEND = 'C11-bookend-plus'
-FINDING_COMMENT = 'C11-comment-in-block'
-FINDING_LONE = 'C11-idx-lone-gene'
-FINDING_ENSUTR = 'C11-write-ensembl-utr'
 
 # ------------------------------------------------------------------ generation
 def squeeze(rng, world, stats):
@@ -183,12 +179,13 @@ def line_kind(l):
 def text_variant(rng, case, stats, force=None):
     """GTF TEXT layer: the same annotation written with non-ASCII characters (kept attribute gene_name,
     dropped attributes, comment lines), CRLF / mixed line ends, comment lines between entities, very long
-    attribute columns, no newline after the last line.  `inside` (rare) additionally puts a comment line
-    INSIDE a transcript block: outside the precondition of theorem pointer_block, divergence is measured."""
+    attribute columns, no newline after the last line.  `inside` additionally puts comment lines INSIDE
+    transcript blocks (outside the precondition of theorem pointer_block: the byte range of the pointer then
+    holds the comment, which TranscriptPointer.load skips since fix c3e2bdd; models must equal the parsed ones)."""
     world = case['world']
     feats = force or [f for f, p in (('nonascii_name', 0.5), ('nonascii_attr', 0.4), ('nonascii_comment', 0.5),
                                      ('crlf', 0.25), ('mixed_eol', 0.1), ('comments_between', 0.5), ('long_attr', 0.3),
-                                     ('no_final_newline', 0.3), ('inside', 0.06), ('ensembl_utr', 0.15)) if rng.random() < p]
+                                     ('no_final_newline', 0.3), ('inside', 0.15), ('ensembl_utr', 0.15)) if rng.random() < p]
     if not feats:
         feats = ['nonascii_comment']
     if 'nonascii_name' in feats and not case.get('gtf_lines'):
@@ -684,7 +681,6 @@ def compare_world(case, out, model, cmodel, stats):
     conv = out['conv']
     # ---- 1. declarative statement on the implementation's conversions
     stmt_bad = []
-    bookend_hits = []
     unstr = case.get('unstranded')
     def off_statement(gene, tx=None):
         # entities outside the statement's premises (strand '?'): only model == implementation is compared
@@ -694,32 +690,16 @@ def compare_world(case, out, model, cmodel, stats):
             stats['off_statement'] = stats.get('off_statement', 0) + 1
             continue
         txconvs = [(t, conv['tx'][t['id']]) for t in gene['transcripts']]
-        def bookend(tx, p):
-            # signature of finding C11-bookend-plus: plus strand, the position is the shared boundary of two
-            # book-ended exons (exonic: first base of the second exon) and the code raised the intron error
-            if not (isinstance(p, dict) and tx is not None and tx.get('abut') and gene['strand'] == 1):
-                return False
-            ex = tx['exons']
-            return p['r'] == 'E:ValueError:intron' and any(ex[k][1] == ex[k + 1][0] == p['g'] for k in range(len(ex) - 1))
         for what, p in check_statement_gene(gene, conv['gene'][gene['id']], case['pos']['gene'][gene['id']], txconvs):
-            if bookend(p.get('tx') if isinstance(p, dict) else None, p):
-                bookend_hits.append('gene %s: %s' % (gene['id'], what))
-            else:
-                stmt_bad.append('gene %s (%s strand): %s' % (gene['id'], gene['strand'], what))
+            stmt_bad.append('gene %s (%s strand): %s' % (gene['id'], gene['strand'], what))
         for t, tc in txconvs:
             for what, p in check_statement_tx(gene, t, tc, case['pos']['tx'][t['id']]):
-                if bookend(t, p):
-                    bookend_hits.append('transcript %s (strand %d, exons %s): %s' % (t['id'], gene['strand'], t['exons'], what))
-                else:
-                    stmt_bad.append('transcript %s (strand %d, exons %s): %s' % (t['id'], gene['strand'], t['exons'], what))
+                stmt_bad.append('transcript %s (strand %d, exons %s): %s' % (t['id'], gene['strand'], t['exons'], what))
     if case.get('nonmember'):
         if any(not is_err(r) for r in conv['nonmember']):
             stmt_bad.append('gene -> transcript accepted a transcript of another gene %r' % (case['nonmember'],))
     for s in stmt_bad[:3]:
         viol('coordinates: ' + s)
-    if bookend_hits:
-        stats['bookend_hits'] = stats.get('bookend_hits', 0) + len(bookend_hits)
-        viol('coordinates (book-ended exons, plus strand): ' + bookend_hits[0], finding=FINDING_BOOKEND, replay=minimal_bookend())
     # ---- 2. model vs implementation, every conversion, every position
     corr_bad = []
     for (kind, ident, fn), m in zip(*model):
@@ -761,8 +741,6 @@ def compare_world(case, out, model, cmodel, stats):
             else:
                 exp = ERRCLS[m[0]]
             for src, got in (('fully parsed', out['seqs']['tx'][ident]), ('on-disk', out['disk_seqs'][ident])):
-                if src == 'on-disk' and ident in case.get('inside_tx', []):
-                    continue
                 g3 = got if is_err(got) else {k: got[k] for k in ('seq', 'orf', 'sec')}
                 if loose:
                     if g3 != exp:
@@ -793,8 +771,6 @@ def compare_world(case, out, model, cmodel, stats):
                 stats['cdna_minus_multi'] = stats.get('cdna_minus_multi', 0) + 1
             exp = {'seq': O.U(m[1]), 'ref': m[2]} if m[0] == 0 else ERRCLS[m[0]]
             for src, got in (('fully parsed', out['seqs'].get('cdna', {}).get(ident)), ('on-disk', out.get('disk_cdna', {}).get(ident))):
-                if src == 'on-disk' and ident in case.get('inside_tx', []):
-                    continue
                 if got is None:
                     viol('no CDS sequence returned for coding transcript %s (%s)' % (ident, src))
                     continue
@@ -836,15 +812,8 @@ def compare_world(case, out, model, cmodel, stats):
     full = {w: {k: digest(v) for k, v in out['dump'][w].items()} for w in 'gt'}
     if out['disk_keys'] != [sorted(out['dump']['g']), sorted(out['dump']['t'])]:
         viol('on-disk annotation has a different key set than the fully parsed one')
-    comment_reported = []
-    ensutr_reported = []
     if out.get('idx_load_error'):
-        lone = [g['id'] for g in world['genes'] if not g['transcripts']]
-        if lone and out['idx_load_error'] == 'E:IndexError':
-            viol('load_index raises IndexError on the idx files written for this annotation: gene %s has no transcript, its idx line ends '
-                 'with an empty field that rstrip() removes' % lone[0], finding=FINDING_LONE, replay=minimal_lone())
-        else:
-            viol('load_index failed on the idx files written by generate_index: %s' % out['idx_load_error'])
+        viol('load_index failed on the idx files written from generate_index for this annotation: %s' % out['idx_load_error'])
     (creqs, ctags, cres) = cmodel
     traces = {}
     for tag, res in zip(ctags, cres):
@@ -868,29 +837,6 @@ def compare_world(case, out, model, cmodel, stats):
                     res = full[which].get(names[val]) if code == 0 else 'E:KeyError'
                     o.append([res, [[names[x] for x in dq], sorted(names[x] for x in ck)]])
                 return o
-            inside = set(case.get('inside_tx', [])) if which == 't' else set()
-            if inside:
-                # comment lines inside a transcript block: outside the contiguity precondition; the loader
-                # diverges for those keys (measured), every other key must still be served correctly
-                div = [(i, k, r[0]) for i, (k, r) in enumerate(sub) if k in inside and r[0] != full[which].get(k)]
-                stats['noncontiguous_divergence'] = stats.get('noncontiguous_divergence', 0) + len(div)
-                stats['noncontiguous_accesses'] = stats.get('noncontiguous_accesses', 0) + sum(1 for k, r in sub if k in inside)
-                other = [x for x in div if x[2] != 'E:IndexError']
-                if other:
-                    i, k, r = other[0]
-                    viol('on-disk annotation (%s, history %s): access #%d to key %s (comment line inside its block) returned %s, the fully parsed model is %s' % (
-                        which, hname, i, k, r, full[which].get(k)))
-                elif div and not comment_reported:
-                    comment_reported.append(1)
-                    i, k, r = div[0]
-                    viol('on-disk annotation: transcript %s has a # comment line between two of its records; the fully parsed annotation skips it, '
-                         'TranscriptPointer.load parses it and raises IndexError' % k, finding=FINDING_COMMENT, replay=minimal_comment_inside())
-                w2 = [(i, k, r[0]) for i, (k, r) in enumerate(sub) if k in valid and k not in inside and r[0] != full[which][k]]
-                if w2:
-                    i, k, r = w2[0]
-                    viol('on-disk annotation (%s, history %s): access #%d to key %s returned %s, the fully parsed model is %s' % (
-                        which, hname, i, k, r, full[which].get(k)))
-                continue
             got = [r for k, r in sub]
             as_written = conv_trace(tr)
             stats['evictions'] += sum(1 for a, b in zip(as_written, as_written[1:]) if len(b[1][0]) == len(a[1][0]) and b[1][0] != a[1][0])
@@ -930,8 +876,6 @@ def compare_world(case, out, model, cmodel, stats):
         stats['history_ops'] = stats.get('history_ops', 0) + h['n_ops']
         stats['history_writes'] = stats.get('history_writes', 0) + h['writes']
         for pr in h['problems'][:2]:
-            if hname == 'disk_history' and any(x in case.get('inside_tx', []) for x in pr['op'][1:] if isinstance(x, str)):
-                continue
             if pr['kind'] == 'state_changed':
                 viol('%s annotation object: after read-only operation #%d %r the %s %s no longer equals the snapshot taken before the history (fields %r)' % (
                     label, pr['step'], pr['op'], 'gene' if pr['what'][0] == 'g' else 'transcript', pr['what'][1], pr['what'][2]))
@@ -959,8 +903,6 @@ def compare_world(case, out, model, cmodel, stats):
                 ref = out.get('roundtrip_text_md5')
             else:
                 continue
-            if hname == 'disk_history' and any(x in case.get('inside_tx', []) for x in op[1:] if isinstance(x, str)):
-                continue
             if r != ref:
                 d = sorted(f for f in r if r[f] != ref.get(f)) if isinstance(r, dict) and isinstance(ref, dict) else [str(r)[:60], str(ref)[:60]]
                 viol('%s annotation object: %r inside a history gives %r, differs from the same call on a fresh object' % (label, op, d))
@@ -976,8 +918,6 @@ def compare_world(case, out, model, cmodel, stats):
                             continue
                         if rp[w].get(k) != v:
                             b = rp[w].get(k)
-                            if ensutr_sig(case, w, v, b):
-                                continue                      # reported once by the round-trip section
                             d = 'missing' if b is None else sorted(x for x in v if v[x] != b.get(x))
                             viol('history: the %s %s parsed back from the LAST write differs from the snapshot before the history (fields %r)' % (
                                 'gene' if w == 'g' else 'transcript', k, d))
@@ -996,12 +936,6 @@ def compare_world(case, out, model, cmodel, stats):
                 if rt[w].get(k) != v:
                     a, b = v, rt[w].get(k)
                     d = 'missing' if b is None else {x: (str(a[x])[:100], str(b[x])[:100]) for x in a if a[x] != b.get(x)}
-                    if ensutr_sig(case, w, a, b):
-                        if not ensutr_reported:
-                            ensutr_reported.append(1)
-                            viol('GTF write -> parse: transcript %s loses its five_prime_utr / three_prime_utr records (GtfIO.write emits only tx_model.utr)' % k,
-                                 finding=FINDING_ENSUTR, replay=minimal_ensutr())
-                        continue
                     viol('GTF write -> parse changed %s %s: %r' % ('gene' if w == 'g' else 'transcript', k, d))
                     break
         if rt['gene_order'] != out['gene_order'] or sorted(rt['tx_order']) != sorted(out['tx_order']):
@@ -1049,14 +983,6 @@ def minimal_comment_inside():
     case['text_features'] = ['inside']
     case['inside_tx'] = [tid]
     return {'kind': 'world', 'case': case}
-
-def ensutr_sig(case, w, a, b):
-    """signature of finding C11-write-ensembl-utr: the file has five_/three_prime_utr records, and the ONLY
-    fields of the transcript model that differ after write -> parse are five_utr / three_utr, now empty"""
-    if not (case.get('ensembl_utr') and w == 't' and isinstance(b, dict)):
-        return False
-    diff = [x for x in a if a[x] != b.get(x)]
-    return bool(diff) and set(diff) <= {'five_utr', 'three_utr'} and all(b[x] == [] for x in diff)
 
 def minimal_ensutr():
     rng = random.Random(5)
